@@ -22,9 +22,11 @@ ASSUMPTIONS = [
 GRAPHS = {
     'C18_tu': {'protos': ['tcp', 'udp'], 'to': [3, 1, 2], 'verMod': 4},
     'C18_uu': {'protos': ['udp', 'udp'], 'to': [2, 1, 3], 'verMod': 4},
-    'C19_1': {'protos': ['udp'], 'to': [2, 1, 3], 'verMod': 3},
+    'C19_1': {'protos': ['udp'], 'to': [2, 1, 3], 'verMod': 3, 'maps': ['distinct']},
     'C19_1t': {'protos': ['udp'], 'to': [2, 1, 3], 'verMod': 3},
-    'C19_2': {'protos': ['tcp', 'udp'], 'to': [2, 1, 3], 'verMod': 3},
+    'C19_2': {'protos': ['tcp', 'udp'], 'to': [2, 1, 3], 'verMod': 3, 'maps': ['distinct', 'proto-only']},
+    'C19_sem': {'protos': ['udp', 'udp'], 'to': [2, 1, 3], 'verMod': 3, 'sem': True},
+    'C19_semx': {'protos': ['udp', 'udp'], 'to': [2, 1, 3], 'verMod': 3, 'sem': True},
 }
 
 
@@ -34,7 +36,7 @@ def build_graphs(ctx, names, plan, rnd, max_len=60):
         ctx.tlc('Conntrack', 'MC_Conntrack_%s.cfg' % name, args=['-dump', 'dot,actionlabels', dot], workers=1)  # 1 worker: reproducible edge order
         out = 'ct_graph_%s.json' % name
         st = tours.build(dot, os.path.join(ctx.scratch, out), max_len=max_len, rnd=rnd,
-                         keep_vars={'res', 'may', 'why', 'ver', 'rules', 'conns'})
+                         keep_vars={'res', 'may', 'why', 'ver', 'rules', 'conns', 'cfg'})
         os.remove(dot)
         if st['edges_covered'] != st['edges']:
             raise MachineryError('edge cover incomplete for %s: %s' % (name, st))
